@@ -568,6 +568,69 @@ theorem sciDigits_exp_bounds (p n d : Nat) :
   simp only
   exact key _ _ _
 
+/-! ### `sciDigits` rounds to nearest -/
+
+/-- nearest-integer rounding as `sciDigits` does it: the result is within half a unit -/
+theorem round_half (num den : Nat) (hden : 0 < den) :
+    2 * ((num : Int) - ((if 2 * (num % den) > den ∨ (2 * (num % den) = den ∧ num / den % 2 = 1) then num / den + 1 else num / den : Nat) : Int) * den).natAbs ≤ den := by
+  have h1 := Nat.div_add_mod num den
+  have h2 := Nat.mod_lt num hden
+  generalize num / den = q at h1 ⊢
+  generalize num % den = r at h1 h2 ⊢
+  have hq : (num : Int) = (den : Int) * q + r := by exact_mod_cast h1.symm
+  split
+  · rename_i hc
+    have hr : den ≤ 2 * r := by omega
+    have : (num : Int) - ((q + 1 : Nat) : Int) * den = -((den : Int) - r) := by
+      rw [hq]; push_cast; rw [Int.add_mul, Int.mul_comm]; omega
+    rw [this]; omega
+  · rename_i hc
+    have hr : 2 * r ≤ den := by omega
+    have : (num : Int) - (q : Int) * den = r := by rw [hq, Int.mul_comm]; omega
+    rw [this]; omega
+
+/-- **`sciDigits` rounds to nearest**: with `e0 = decExp n d` the scaled value `(n/d) · 10^(p - e0)` (= `num/den`) is
+within half a unit of the integer `ds · 10^(ex - e0)` the result denotes, and `ex` is `e0` or (after a carry to the
+next power of ten) `e0 + 1`.  In other words `|n/d - ds · 10^(ex-p)| ≤ ½ · 10^(e0-p)`: the printed decimal differs
+from the value by at most half a unit in the last printed place. -/
+theorem sciDigits_nearest (p n d : Nat) (hd : 0 < d) :
+    ((sciDigits p n d).2 = decExp n d ∨ (sciDigits p n d).2 = decExp n d + 1) ∧
+    2 * (((if (p : Int) - decExp n d ≥ 0 then n * 10 ^ ((p : Int) - decExp n d).toNat else n : Nat) : Int)
+          - ((sciDigits p n d).1 * 10 ^ ((sciDigits p n d).2 - decExp n d).toNat : Nat)
+            * ((if (p : Int) - decExp n d ≥ 0 then d else d * 10 ^ (-((p : Int) - decExp n d)).toNat : Nat) : Int)).natAbs
+      ≤ (if (p : Int) - decExp n d ≥ 0 then d else d * 10 ^ (-((p : Int) - decExp n d)).toNat) := by
+  have hq := sci_quot_lt p n d hd
+  have hden : 0 < (if (p : Int) - decExp n d ≥ 0 then d else d * 10 ^ (-((p : Int) - decExp n d)).toNat) := by
+    split
+    · exact hd
+    · exact Nat.mul_pos hd (Nat.pow_pos (by decide))
+  unfold sciDigits
+  simp only
+  generalize (if (p : Int) - decExp n d ≥ 0 then n * 10 ^ ((p : Int) - decExp n d).toNat else n) = num at hq ⊢
+  generalize (if (p : Int) - decExp n d ≥ 0 then d else d * 10 ^ (-((p : Int) - decExp n d)).toNat) = den at hq hden ⊢
+  have hr := round_half num den hden
+  have hmle : (if 2 * (num % den) > den ∨ (2 * (num % den) = den ∧ num / den % 2 = 1) then num / den + 1 else num / den) ≤ num / den + 1 := by
+    split <;> omega
+  generalize (if 2 * (num % den) > den ∨ (2 * (num % den) = den ∧ num / den % 2 = 1) then num / den + 1 else num / den) = m at hr hmle ⊢
+  generalize decExp n d = e0
+  by_cases hc : m ≥ 10 ^ (p + 1)
+  · rw [if_pos hc]
+    have hm : m = 10 ^ (p + 1) := by omega
+    simp only
+    refine ⟨Or.inr trivial, ?_⟩
+    have h1 : (e0 + 1 - e0).toNat = 1 := by omega
+    rw [h1]
+    have h2 : m / 10 * 10 ^ 1 = m := by
+      rw [hm, Nat.pow_succ, Nat.pow_one, Nat.mul_div_cancel _ (by decide)]
+    rw [h2]
+    exact hr
+  · rw [if_neg hc]
+    simp only
+    refine ⟨Or.inl trivial, ?_⟩
+    have h1 : (e0 - e0).toNat = 0 := by omega
+    rw [h1, Nat.pow_zero, Nat.mul_one]
+    exact hr
+
 /-! ### every binary64 value -/
 
 /-- finite values of binary64 in the model's representation `± m · 2^e` -/
